@@ -5,11 +5,9 @@ MUTANTS = [
     # ---- C01 / C02: SAT
     ("C01", "unassign-cuts-target-level", [(S, "        target = trail_lim[level]\n", "        target = trail_lim[level - 1] if level > 0 else 0\n")]),
     ("C01", "propagate-forgets-new-watch", [(S, "                        add_watch(clause[1], clause_idx)\n                        found = True", "                        found = True")]),
-    ("C01", "blocking-clause-skips-last-var", [(S, "blocking = [(-v if vals[v] == 1 else v) for v in range(1, n_vars + 1) if vals[v] != UNDEF]", "blocking = [(-v if vals[v] == 1 else v) for v in range(1, n_vars) if vals[v] != UNDEF]")]),
     ("C01", "reduce-db-drops-blocking", [(S, "            lbd_scores.append(0)\n", "            lbd_scores.append(n_vars)\n")]),
     ("C01", "model-omits-level0-false", [(S, "sol = {v: vals[v] == 1 for v in range(1, n_vars + 1) if vals[v] != UNDEF}", "sol = {v: vals[v] == 1 for v in range(1, n_vars + 1) if vals[v] != UNDEF and (levels[v] > 0 or vals[v] == 1)}")]),
     ("C01", "pure-literals-always", [(S, "    if solution_limit == 1:\n        assumed_vars", "    if solution_limit >= 1:\n        assumed_vars")]),
-    ("C01", "binary-implication-wrong-polarity", [(S, "                if vals[impl_var] == UNDEF:\n                    assign(impl_var, implied > 0, clause_idx)", "                if vals[impl_var] == UNDEF:\n                    assign(impl_var, implied > 0 or len(trail_lim) > 6, clause_idx)")]),
     ("C02", "luby-loops", [(S, "        if i < (1 << k) - 1:\n", "        if i >= (1 << (k - 1)):\n")]),
     ("C02", "uip-wrong-sign", [(S, "uip_lit = var if vals[var] == 0 else -var", "uip_lit = -var if vals[var] == 0 else var")]),
     ("C02", "infeasible-at-level-1", [(S, "            if dec_level == 0 or conflict == -2:\n", "            if dec_level <= 1 or conflict == -2:\n")]),
@@ -42,14 +40,11 @@ MUTANTS = [
     ("C04", "incumbent-objective-from-bound", [("solvor/milp.py", "            sol_obj = result.objective\n", "            sol_obj = node_bound / sign\n")]),
     ("C04", "fixed-var-uses-upper", [("solvor/milp.py", "        if hi - lo < eps:\n            fixed[j] = lo", "        if hi - lo < 1 + eps and hi < float('inf') and lo > 0:\n            fixed[j] = lo")]),
     # ---- C05: CP
-    ("C05", "alldiff-skips-last-var", [("solvor/cp.py", "        for var in variables:\n            if len(domains[var.name]) == 1:\n                val = next(iter(domains[var.name]))\n                for other in variables:", "        for var in variables[:-1]:\n            if len(domains[var.name]) == 1:\n                val = next(iter(domains[var.name]))\n                for other in variables:")]),
     ("C05", "ne-offset-sign", [("solvor/cp.py", "                    domains[var2.name].discard(v1 - offset)", "                    domains[var2.name].discard(v1 + offset)")]),
-    ("C05", "eq-var-narrows-one-side", [("solvor/cp.py", "            domains[var1.name] = common\n            domains[var2.name] = common.copy()", "            domains[var1.name] = common")]),
     ("C05", "hint-outside-domain-applied", [("solvor/cp.py", "                if name in domains and val in domains[name]:\n                    domains[name] = {val}", "                if name in domains:\n                    domains[name] = {val}")]),
     ("C05", "generic-fallback-accepts-leaf", [("solvor/cp.py", "                equal = _eval_expr(left, values) == _eval_expr(right, values)\n                return equal != is_ne", "                return True")]),
     ("C05", "forward-check-floor-division", [("solvor/cp.py", "root = -b // a if b % a == 0 else None", "root = -b // a")]),
     ("C05", "hints-hard-again", [("solvor/cp.py", "            if result.status == Status.INFEASIBLE:\n                return self._solve_with(solver, None, solution_limit, kwargs)\n", "")]),
-    ("C05", "decode-takes-last-true", [("solvor/cp_encoder.py", "                    if sat_sol.get(bool_var, False):\n                        cp_sol[name] = val\n                        break", "                    if sat_sol.get(bool_var, True):\n                        cp_sol[name] = val\n                        break")]),
     ("C05", "eval-rsub-swapped", [("solvor/cp.py", "    if op == \"rsub\":\n        return b - a", "    if op == \"rsub\":\n        return a - b")]),
     # ---- C06: encoder
     ("C06", "exactly-one-without-alo", [("solvor/cp_encoder.py", "        if not lits:\n            return\n        self._clauses.append(lits)\n", "        if not lits:\n            return\n")]),
@@ -61,7 +56,24 @@ MUTANTS = [
     ("C06", "sum-ge-partial-lower-bound", [("solvor/cp_encoder.py", "partial_sum = self._create_int_var(max(v1.lb + v2.lb, target - rest_max), v1.ub + v2.ub)", "partial_sum = self._create_int_var(max(v1.lb + v2.lb, target - rest_max + 1), v1.ub + v2.ub)")]),
     ("C06", "sum-eq-two-vars-one-direction", [("solvor/cp_encoder.py", "                if val2 < v2.lb or val2 > v2.ub:\n                    self._clauses.append([-v1.bool_vars[val1]])", "                if val2 < v2.lb or val2 > v2.ub + 1:\n                    self._clauses.append([-v1.bool_vars[val1]])")]),
     ("C06", "sub-rhs-var-read-as-zero", [("solvor/cp_encoder.py", "if isinstance(left, tuple) and left[0] == \"sub\" and isinstance(right, int):\n            x, y = left[1], left[2]\n            if isinstance(x, IntVar) and isinstance(y, IntVar):\n                right_const = right", "if isinstance(left, tuple) and left[0] == \"sub\":\n            x, y = left[1], left[2]\n            if isinstance(x, IntVar) and isinstance(y, IntVar):\n                right_const = right if isinstance(right, int) else 0")]),
-    ("C06", "eq-var-one-implication", [("solvor/cp_encoder.py", "            self._clauses.append([-var1.bool_vars[val], var2.bool_vars[val]])\n            self._clauses.append([var1.bool_vars[val], -var2.bool_vars[val]])\n\n        for val in set(var1.bool_vars.keys()) - common:", "            self._clauses.append([-var1.bool_vars[val], var2.bool_vars[val]])\n\n        for val in set(var1.bool_vars.keys()) - common:")]),
     ("C06", "cumulative-heaviest-first-skips", [("solvor/cp_encoder.py", "                    extend(pos + 1, chosen + [i], load + demands[i])", "                    extend(pos + 2, chosen + [i], load + demands[i])")]),
     ("C06", "mul-coef-ignored-in-flatten", [("solvor/cp_encoder.py", "        if not (_is_plain_sum(left) and _is_plain_sum(right)):\n            self._encode_ne_expr_by_enumeration(left, right, is_ne)\n            return\n", "")]),
+]
+
+# Breaks that turned out NOT to violate their property (kept for the record, no .diff is generated):
+#  C01 binary-implication-wrong-polarity: a binary clause is checked from both of its literals, the wrong value
+#      raises a conflict on the very next propagation step and the search repairs itself (no wrong model in 200
+#      deep instances); C01 blocking-clause-skips-last-var: only loses models (enumeration completeness is not
+#      promised), every returned model stays valid and distinct;
+#  C05 alldiff-skips-last-var / eq-var-narrows-one-side: weaker propagation only, the dropped direction is
+#      enforced from the other variable, so no wrong assignment and no false INFEASIBLE is possible;
+#  C05 decode-takes-last-true: the default of dict.get is never used (every Boolean variable is assigned);
+#  C06 eq-var-one-implication: with exactly-one on both variables one implication direction entails the other.
+EQUIVALENT = [
+    ("C01", "blocking-clause-skips-last-var", [(S, "blocking = [(-v if vals[v] == 1 else v) for v in range(1, n_vars + 1) if vals[v] != UNDEF]", "blocking = [(-v if vals[v] == 1 else v) for v in range(1, n_vars) if vals[v] != UNDEF]")]),
+    ("C01", "binary-implication-wrong-polarity", [(S, "                if vals[impl_var] == UNDEF:\n                    assign(impl_var, implied > 0, clause_idx)", "                if vals[impl_var] == UNDEF:\n                    assign(impl_var, implied > 0 or len(trail_lim) > 6, clause_idx)")]),
+    ("C05", "alldiff-skips-last-var", [("solvor/cp.py", "        for var in variables:\n            if len(domains[var.name]) == 1:\n                val = next(iter(domains[var.name]))\n                for other in variables:", "        for var in variables[:-1]:\n            if len(domains[var.name]) == 1:\n                val = next(iter(domains[var.name]))\n                for other in variables:")]),
+    ("C05", "eq-var-narrows-one-side", [("solvor/cp.py", "            domains[var1.name] = common\n            domains[var2.name] = common.copy()", "            domains[var1.name] = common")]),
+    ("C05", "decode-takes-last-true", [("solvor/cp_encoder.py", "                    if sat_sol.get(bool_var, False):\n                        cp_sol[name] = val\n                        break", "                    if sat_sol.get(bool_var, True):\n                        cp_sol[name] = val\n                        break")]),
+    ("C06", "eq-var-one-implication", [("solvor/cp_encoder.py", "            self._clauses.append([-var1.bool_vars[val], var2.bool_vars[val]])\n            self._clauses.append([var1.bool_vars[val], -var2.bool_vars[val]])\n\n        for val in set(var1.bool_vars.keys()) - common:", "            self._clauses.append([-var1.bool_vars[val], var2.bool_vars[val]])\n\n        for val in set(var1.bool_vars.keys()) - common:")]),
 ]
